@@ -111,6 +111,27 @@ def handle : Handler := fun op inp impl => do
     return { holds := [("C06.proj_ro", okRo), ("C06.proj_ex", okEx), ("C01.proj_ro", okRo), ("C01.proj_ex", okEx),
                        ("C02.proj_ro", okRo), ("C09.proj_ro", okRo), ("C09.proj_ex", okEx), ("C07.proj_ro", okRo), ("C07.proj_ex", okEx)],
              tags := ["proj", if cs.br.isSome then "br" else "nobr"] }
+  | "trace" =>
+    let states ← (← fArr inp "states").mapM csOfJson
+    let labels ← (← fArr inp "labels").mapM jstr
+    let fwds ← (← fArr inp "fwd").mapM jbool
+    match states with
+    | [] => .error "closedloop: empty trace"
+    | s0 :: rest =>
+      -- a fault-injected reconcile is not a label of the model: the ghost is not advanced over it (judged := false, label crash is a no-op for the ghost)
+      let steps := (labels.zip (rest.zip fwds)).map fun (l, s', f) =>
+        match labelOf l with
+        | some lab => (lab, s', f)
+        | none =>
+          -- a reconcile cut short by an API fault observes what a full reconcile observes: the ghost treats it as that reconcile
+          if l.startsWith "fault-ro" then (Label.ro, s', f) else if l.startsWith "fault-br" then (Label.br, s', f) else (Label.crash, s', false)
+      let ok := RV.Oracle.ClosedLoop.traceOK (RV.Oracle.ClosedLoop.Ghost.fresh 0) s0 steps
+      let njudged := (steps.filter fun x => x.2.2).length
+      let bad := match RV.Oracle.ClosedLoop.traceFirstBad (RV.Oracle.ClosedLoop.Ghost.fresh 0) s0 steps 0 with
+        | some (i, g, a, b) => [s!"bad-at:{i}:idx={g.idx},up={g.upgraded},ro={g.routed},pa={g.pauseOK},inv={a},adv={b}"]
+        | none => []
+      return { holds := [("C02.loop_gate", ok), ("C06.loop_gate", ok)],
+               tags := ["trace", s!"trace-len:{(labels.length / 50) * 50}+", if njudged == 0 then "trivial" else "trace-judged"] ++ bad }
   | _ => .error s!"closedloop: unknown op {op}"
 
 end RV.Drv.ClosedLoop
